@@ -6,6 +6,7 @@ import AtreeProofs.Iter.ArrayOverwrite
 import AtreeProofs.Iter.MapTop
 import AtreeProofs.Iter.MapOverwrite
 import AtreeProofs.Iter.MapExample
+import AtreeProofs.Map.Ids
 /-
   C13 — Every iterator yields exactly the elements once, in canonical order.
   PROPERTY THEOREMS about the iterator models of AtreeModel/Array/Ops.lean (read-only, mutable,
@@ -129,25 +130,30 @@ theorem map_mut_iter_eq_toList (T : Nat) (hT : legalThreshold T = true) (D : Dig
 
 /-- The read-only iterator (element iterator nested through the collision groups, then the
     `next` link to the following data slab) visits exactly `toList`.  Besides `MapInv` this needs
-    the data-slab IDs to be pairwise different and defined (`leafIdsOk`; `MapInv` says nothing about
-    slab IDs — the replayer evaluates `leafIdsOk` on every model tree it iterates). -/
+    the identifier clause `MapIdsOk` (AtreeProofs/MapIds.lean: slab identifiers pairwise different,
+    of the owner's address, index between 1 and the allocation counter) — the sibling invariant that
+    is PRESERVED by every operation (`C05.mapIds_*`, `C05.map_history_wellformed`) and holds after
+    every history from `NewMap` (`C13.map_ro_iter_history` in Props/C13Ids.lean has no hypothesis
+    about identifiers at all).  [Before FX9B the hypothesis was the raw, undischarged
+    `m.leafIdsOk = true`; `MapIdsOk` implies it: `C05.mapIdsOk_implies`.] -/
 theorem map_ro_iter_eq_toList (T : Nat) (hT : legalThreshold T = true) (D : DigestFn (r + 1)) (cfg : MCfg)
-    (m : OMap r) (hcfg : CfgOk cfg T m) (h : MapInv T D m) (hids : m.leafIdsOk = true) :
+    (m : OMap r) (hcfg : CfgOk cfg T m) (ctr : Nat) (h : MapInvI T D m ctr) :
     m.iterReadOnly = .ok m.toList :=
-  IterM.iterReadOnly_eq hT m hcfg h hids
+  IterM.iterReadOnly_eq hT m hcfg h.1 h.2.leafIdsOk
 
 /-- Keys-only and values-only flavours are the projections of the enumeration, for the mutable
     iterator (`IterateKeys` goes through `getNextKey`, `IterateValues` through
-    `getElementAndNextKey`) and for the read-only one. -/
+    `getElementAndNextKey`) and for the read-only one (the latter under the preserved identifier
+    clause `MapIdsOk`, see `map_ro_iter_eq_toList`). -/
 theorem map_keys_values_projections (T : Nat) (hT : legalThreshold T = true) (D : DigestFn (r + 1)) (cfg : MCfg)
     (m : OMap r) (hcfg : CfgOk cfg T m) (h : MapInv T D m) :
     m.iterMutableKeys cfg = .ok (m.toList.map (·.1)) ∧
     m.iterMutableValues cfg = .ok (m.toList.map (·.2)) ∧
-    (m.leafIdsOk = true →
+    (∀ ctr, MapIdsOk m ctr →
       m.iterReadOnlyKeys = .ok (m.toList.map (·.1)) ∧ m.iterReadOnlyValues = .ok (m.toList.map (·.2))) := by
   refine ⟨IterM.iterMutableKeys_eq hT m hcfg h, IterM.iterMutableValues_eq hT m hcfg h, ?_⟩
-  intro hids
-  have := IterM.iterReadOnly_eq hT m hcfg h hids
+  intro ctr hids
+  have := IterM.iterReadOnly_eq hT m hcfg h hids.leafIdsOk
   constructor
   · unfold OMap.iterReadOnlyKeys; rw [this]; rfl
   · unfold OMap.iterReadOnlyValues; rw [this]; rfl
@@ -228,7 +234,7 @@ example : map3.getElementAndNextKey IterExample.cfg (k 12) = .ok (k 12, v 3, som
   map_lookup_and_successor IterExample.T0 IterExample.legal IterExample.D IterExample.cfg map3 cfg_ok map3_inv
     [(k 11, v 1)] (k 12, v 3) [(k 25, v 2)] map3_toList
 example : map3.iterReadOnly = .ok map3.toList :=
-  map_ro_iter_eq_toList IterExample.T0 IterExample.legal IterExample.D IterExample.cfg map3 cfg_ok map3_inv map3_ids
+  map_ro_iter_eq_toList IterExample.T0 IterExample.legal IterExample.D IterExample.cfg map3 cfg_ok 1 ⟨map3_inv, by decide⟩
 example : map3.iterLoaded (fun _ => true) = map3.toList :=
   map_loaded_all_eq_toList IterExample.T0 IterExample.D map3 map3_inv _ (fun _ => rfl)
 
